@@ -235,7 +235,7 @@ func TestC16(t *testing.T) {
 		if err != nil {
 			t.Fatal(err)
 		}
-		for _, src := range []string{"parsed", "arena", "proto-roundtrip", "built"} {
+		for _, src := range []string{"parsed", "arena", "proto-roundtrip", "built", "built-signed-data-size-unset"} {
 			var q *pb.QuoteV4
 			extra := map[string][]byte{}
 			switch src {
@@ -257,6 +257,11 @@ func TestC16(t *testing.T) {
 				if err := proto.Unmarshal(b, q); err != nil {
 					t.Fatal(err)
 				}
+			case "built-signed-data-size-unset":
+				// a message assembled field by field with the redundant size left at its zero value (no check relates it to
+				// the data, O-1): the serialiser computes the size — into its output, not into the caller's message
+				q = proto.Clone(w.Quote).(*pb.QuoteV4)
+				q.SignedDataSize = 0
 			default:
 				q = proto.Clone(w.Quote).(*pb.QuoteV4)
 			}
